@@ -328,6 +328,11 @@ def delegated(ctx):
     c08.mac_covers(ctx)
     c08.mac_covers_every_element(ctx)
     c11.selection(ctx)
+    # "encryption for a disabled right fails" / "refreshing an issued key succeeds": the status written by update_msk and the one
+    # read by mpk() sit on the same (newest) end of a chain, and a stored key comes back with its chains in the order that was signed
+    from . import c04, c13
+    c04.orientation(ctx)
+    c13.restricted(ctx, r'(core::UserSecretKey)$', [c13.order, c13.read_loop_keeps_every_element, c13.read_keeps_every_element])
 
 
 LOOKUPS = r'::(contains_key|get|get_mut|get_key_value|entry|insert|remove|contains|get_latest|get_latest_mut)$'
